@@ -10,68 +10,11 @@
 (* AsmUT / TemplateUT are the operators under judgement: equal to Script.tla  *)
 (* when Deviation = "none"; the self-test configs enable a named deviation    *)
 (* and TLC must produce a counterexample.                                     *)
-EXTENDS Script, FiniteSets
-CONSTANTS LensSmall, LensBig, EveryLen, MaxBytes, ByteAlpha, WitLens, WitLens3, MaxRedeem, Deviation
+EXTENDS ScriptGrammar
+CONSTANTS Deviation
 VARIABLE c
 
-Ops   == {0, 81, 118, 172, 106, 255}
-Ramp(l)    == [i \in 1..l |-> (i * 7) % 251]
-Const(l)   == Rep(76, l)
-SmallData  == {DataI(Const(l)) : l \in LensSmall} \cup {DataI(Ramp(l)) : l \in LensSmall}
-BigData    == {DataI(Ramp(l)) : l \in LensBig}
-OpItems    == {OpB(o) : o \in Ops}
-Small      == OpItems \cup SmallData
-Tiny       == {OpB(0), OpB(118), OpB(255), DataI(<<76>>), DataI(Const(76)), DataI(Ramp(256))}
-
-RECURSIVE StringsOfLen(_)
-StringsOfLen(n) == IF n = 0 THEN {<<>>} ELSE {Append(s, a) : s \in StringsOfLen(n - 1), a \in ByteAlpha}
-StringsUpTo(n) == UNION {StringsOfLen(k) : k \in 0..n}
-
-Key(i, comp) == IF comp THEN <<2 + (i % 2)>> \o Rep(i, 32) ELSE <<4>> \o Rep(i, 64)
-Keys(n, kind) == [i \in 1..n |-> Key(i, IF kind = 0 THEN TRUE ELSE IF kind = 1 THEN FALSE ELSE i % 2 = 0)]
-Sig(l) == <<48>> \o Ramp(l - 1)
-Sigs(k, l0) == [i \in 1..k |-> Sig(8 + ((l0 + 5 * i) % 66))]
-
-Case(k, a) == [k |-> k, a |-> a]
-Parts == {Case("part", <<"prog", x>>) : x \in Small \cup BigData}
-         \cup {Case("part", <<"every", j>>) : j \in 0..7}
-         \cup {Case("part", <<"bytes", s>>) : s \in StringsOfLen(1)}
-         \cup {Case("part", <<"wit", l>>) : l \in WitLens}
-         \cup {Case("part", <<"multisig", n>>) : n \in 1..16}
-         \cup {Case("part", <<"redeem", j>>) : j \in 0..7}
-         \cup {Case("part", <<"misc", 0>>)}
 Init == c \in Parts
-
-Successors(a) ==
-    CASE a[1] = "prog" ->
-            {Case("prog", <<a[2]>>)}
-            \cup {Case("prog", <<a[2], y>>) : y \in (IF a[2] \in BigData THEN Tiny ELSE Small \cup BigData)}
-            \cup (IF a[2] \in Tiny THEN {Case("prog", <<a[2], y, z>>) : y \in Tiny, z \in Tiny} ELSE {})
-      [] a[1] = "every" ->
-            {Case("prog", <<DataI(Ramp(l))>>) : l \in {m \in 1..EveryLen : m % 8 = a[2]}}
-      [] a[1] = "bytes" ->
-            {Case("bytes", a[2] \o s) : s \in StringsUpTo(MaxBytes - 1)}
-      [] a[1] = "wit" ->
-            {Case("wit", <<Ramp(a[2])>>)} \cup {Case("wit", <<Ramp(a[2]), Const(l)>>) : l \in WitLens}
-            \cup (IF a[2] \in WitLens3
-                  THEN {Case("wit", <<Ramp(a[2]), Const(l), Ramp(m)>>) : l \in WitLens3, m \in WitLens3} ELSE {})
-      [] a[1] = "multisig" ->
-            {Case("tmpl", [t |-> "multisig", m |-> m, pks |-> Keys(a[2], kind)]) : m \in 1..a[2], kind \in 0..2}
-            \cup {Case("tmpl", [t |-> "multisigsig", sigs |-> Sigs(a[2], l0)]) : l0 \in 0..5}
-            \cup {Case("tmpl", [t |-> "p2shmultisigsig", sigs |-> Sigs(m, a[2]), rs |-> Multisig(m, Keys(a[2], kind))])
-                    : m \in 1..a[2], kind \in 0..1}
-      [] a[1] = "redeem" ->
-            {Case("tmpl", [t |-> "p2shsig", pushes |-> Sigs(k, l), rs |-> Ramp(l)])
-                    : l \in {m \in 1..MaxRedeem : m % 8 = a[2]}, k \in 0..2}
-      [] a[1] = "misc" ->
-            {Case("wit", <<>>)}
-            \cup {Case("tmpl", [t |-> "p2pk", pk |-> Key(7, comp)]) : comp \in BOOLEAN}
-            \cup {Case("tmpl", [t |-> "p2pksig", sig |-> Sig(l)]) : l \in 8..73}
-            \cup {Case("tmpl", [t |-> "p2pkhsig", sig |-> Sig(l), pk |-> Key(9, comp)]) : l \in 8..73, comp \in BOOLEAN}
-            \cup {Case("tmpl", [t |-> "p2pkh", h |-> Ramp(20)]), Case("tmpl", [t |-> "p2sh", h |-> Ramp(20)])}
-            \cup {Case("tmpl", [t |-> "nulldata", d |-> Ramp(l)]) : l \in 0..80}
-            \cup {Case("tmpl", [t |-> "witprog", v |-> v, p |-> Ramp(l)]) : v \in 0..16, l \in {2, 20, 32, 40}}
-            \cup {Case("tmpl", [t |-> "nested", h |-> Ramp(20), ws |-> Ramp(l)]) : l \in {1, 35, 76, 600}}
 Next == c.k = "part" /\ c' \in Successors(c.a)
 
 (* ---------------- operators under judgement ---------------- *)
@@ -131,33 +74,9 @@ WitnessUsesCompactSize ==
 
 (* -- templates: intended items and the published byte patterns -- *)
 T == c.a
-TemplateItems ==
-    CASE T.t = "p2pk"       -> P2PKItems(T.pk)
-      [] T.t = "p2pksig"    -> P2PKSigItems(T.sig)
-      [] T.t = "p2pkh"      -> P2PKHItems(T.h)
-      [] T.t = "p2pkhsig"   -> P2PKHSigItems(T.sig, T.pk)
-      [] T.t = "p2sh"       -> P2SHItems(T.h)
-      [] T.t = "p2shsig"    -> P2SHSigItems(T.pushes, T.rs)
-      [] T.t = "multisig"   -> MultisigItems(T.m, T.pks)
-      [] T.t = "multisigsig" -> MultisigSigItems(T.sigs)
-      [] T.t = "p2shmultisigsig" -> MultisigSigItems(T.sigs) \o <<DataI(T.rs)>>
-      [] T.t = "nulldata"   -> NullDataItems(T.d)
-      [] T.t = "witprog"    -> WitnessProgramItems(T.v, T.p)
-      [] T.t = "nested"     -> P2SHItems(Hash160(P2WPKH(T.h)))
-TemplateUT == AsmUT(TemplateItems)
-TemplateSpec ==
-    CASE T.t = "p2pk"       -> P2PK(T.pk)
-      [] T.t = "p2pksig"    -> P2PKSig(T.sig)
-      [] T.t = "p2pkh"      -> P2PKH(T.h)
-      [] T.t = "p2pkhsig"   -> P2PKHSig(T.sig, T.pk)
-      [] T.t = "p2sh"       -> P2SH(T.h)
-      [] T.t = "p2shsig"    -> P2SHSig(T.pushes, T.rs)
-      [] T.t = "multisig"   -> Multisig(T.m, T.pks)
-      [] T.t = "multisigsig" -> MultisigSig(T.sigs)
-      [] T.t = "p2shmultisigsig" -> P2SHMultisigSig(T.sigs, T.rs)
-      [] T.t = "nulldata"   -> NullData(T.d)
-      [] T.t = "witprog"    -> WitnessProgram(T.v, T.p)
-      [] T.t = "nested"     -> P2SH_P2WPKH(T.h)
+TemplateItems == TemplateItemsOf(T)
+TemplateSpec  == TemplateSpecOf(T)
+TemplateUT    == AsmUT(TemplateItems)
 (* an empty data item is the one-byte push OP_0, which disassembles as that opcode *)
 Norm(items) == [i \in 1..Len(items) |-> IF items[i].k = "data" /\ items[i].d = <<>> THEN OpB(0) ELSE items[i]]
 TemplateDisassemblesToIntent ==
